@@ -60,7 +60,11 @@ func (h *TwoPartyHandler) Listen() <-chan *Message {
 }
 
 func (h *TwoPartyHandler) Stop() {
-	if h.err != nil || h.result != nil {
+	h.mtx.Lock()
+	defer h.mtx.Unlock()
+	// only a session that is still running can be stopped: a finished one has
+	// already closed its outgoing channel
+	if h.err == nil && h.result == nil {
 		h.abort(errors.New("aborted by user"))
 	}
 }
